@@ -158,6 +158,49 @@ def stack_rows(rows):
     return SymArray((sp.Integer(r), n), g, "poly")
 
 
+def outer(a, b):
+    """np.outer of two vectors (inputs are flattened, as numpy does): result[i, j] == a[i] * b[j]"""
+    a1 = a if a.ndim == 1 else a.reshape((a.size(),), "C")
+    b1 = b if b.ndim == 1 else b.reshape((b.size(),), "C")
+    return SymArray((a1.shape[0], b1.shape[0]), lambda idx: p_mul(a1.get((idx[0],)), b1.get((idx[1],))), "poly")
+
+
+def column_stack(cols):
+    """np.column_stack of equal-length vectors (1-D arrays become columns; (d, 1) columns are kept)"""
+    as_cols = []
+    for c in cols:
+        if c.ndim == 1:
+            as_cols.append(SymArray((c.shape[0], sp.Integer(1)), (lambda c: (lambda idx: c.get((idx[0],))))(c), c.kind))
+        elif c.ndim == 2:
+            as_cols.append(c)
+        else:
+            raise Unsupported("column_stack of a %d-d array" % c.ndim)
+    if not all(same(c.shape[1], 1) for c in as_cols):
+        raise Unsupported("column_stack of matrices with more than one column")
+    return concatenate(as_cols, 1)
+
+
+def trace_scalar(A):
+    """np.trace of a square array whose diagonal sums to an entry-free expression (deltas and constants only): returned as a sympy scalar;
+    otherwise a 0-d poly is not representable as a scalar and the caller leaves the subset"""
+    if A.ndim != 2 or not same(A.shape[0], A.shape[1]):
+        raise Unsupported("trace of a non-square array")
+    n = A.shape[0]
+    t = sym.world().fresh_digit("t", n)
+    tn = Num([(t, n)])
+    p = to_poly(A.get((tn, tn)))
+    total = sp.Integer(0)
+    for term in p.terms:
+        nt = normalise(Term(term.coef, term.factors, term.deltas, list(term.bound) + [(t, n)]))
+        if nt is None:
+            continue
+        coef, factors, residual, bound = nt
+        if factors or residual or bound:
+            raise Unsupported("trace that depends on array entries (not a scalar expression)")
+        total += coef
+    return sp.simplify(total)
+
+
 def diag(A):
     """np.diag: the diagonal of a square matrix as a vector, or the diagonal matrix of a vector"""
     if A.ndim == 2:
